@@ -123,6 +123,28 @@ Theorem C18_gso_disable_retry_transparent : forall c bufs oracle1 oracle2,
 Proof. exact gso_disable_retry_transparent. Qed.
 Print Assumptions C18_gso_disable_retry_transparent.
 
+(* Glue, Send's pooled destination address (udpAddrPool), repaired order
+   `ua.IP = ua.IP[:16]; copy(ua.IP, as16[:])` (notes/C18-fix-dualstack.patch):
+   for every history of IPv4/IPv6 Sends drawing the same pooled object, whatever
+   state it was left in, the address handed to the kernel is the endpoint's. *)
+Theorem C18_pooled_address_correct : forall (h : list (bool * list N)) (p : apool),
+  length (ap_buf p) = 16%nat /\ (ap_len p = 4%nat \/ ap_len p = 16%nat) ->
+  Forall (fun x : bool * list N => length (snd x) = (if fst x then 16 else 4)%nat) h ->
+  addr_history store6 p h = map snd h.
+Proof. exact addr_history_correct. Qed.
+Print Assumptions C18_pooled_address_correct.
+
+(* The order at /repo HEAD before that repair, `copy(ua.IP, as16[:]); ua.IP =
+   ua.IP[:16]`, is REFUTED: after an IPv4 Send the slice has length 4, the copy
+   writes 4 bytes only, bytes 4..15 are those of the previous IPv6 destination:
+   Sends to fd00::2, 127.0.0.1, ::1 hand the kernel fd00::2, 127.0.0.1, ::2. *)
+Theorem C18_pooled_address_old_refuted :
+  exists h : list (bool * list N), Forall (fun x : bool * list N => length (snd x) = (if fst x then 16 else 4)%nat) h /\
+    addr_history old_store6 apool_new h <> map snd h /\
+    addr_history old_store6 apool_new h = [ex_fd; ex_lo4; [0;0;0;0;0;0;0;0;0;0;0;0;0;0;0;2]].
+Proof. exact addr_history_old_refuted. Qed.
+Print Assumptions C18_pooled_address_old_refuted.
+
 (* F4, send side (history; repaired in /repo ba89367).  For the code as it was
    before the repair (UdpGso/OldModel.v) the statement was FALSE: a zero-length
    datagram after a non-empty one was merged into the previous message and
